@@ -26,6 +26,7 @@ CONSTANTS
  NodeTeardown = FALSE
  MayVanish = FALSE
  SweepRelays = TRUE
+ TestCells = TRUE
  E2E = FALSE
  Aead = TRUE
  CheckIdent = TRUE
